@@ -470,6 +470,7 @@ def rounds_direct(rng: random.Random, n=None, max_steps=220):
                 c.deliver(k)
 
     order = sorted(proposers) if rng.random() < 0.7 else list(proposers)
+    avoid = rng.choice((0.15, 0.15, 0.6, 1.0))      # how likely a first-pass Prepare reaches another proposer
     n_rounds = rng.choice((3, 4, 4, 5, 6))
     for r in range(n_rounds):
         first_pass = r < len(order)
@@ -477,6 +478,9 @@ def rounds_direct(rng: random.Random, n=None, max_steps=220):
             p = order[r]
         else:
             # overdue Accepts of the others reach acceptors that have moved on: nacks, retry timers
+            if rng.random() < 0.5:
+                # delayed promises of earlier ballots arrive; a stale phase 2 of a LOWER ballot may start now
+                deliver_all(lambda m: m["t"] == "promise", limit=rng.randint(1, 3))
             if rng.random() < 0.8:
                 deliver_all(lambda m: m["t"] == "accept", limit=rng.randint(1, 4))
                 deliver_all(lambda m: m["t"] == "nack")
@@ -490,9 +494,14 @@ def rounds_direct(rng: random.Random, n=None, max_steps=220):
             c.propose(p, nv)
         b = c.node(p)._current_ballot.number
         peers = [i for i in range(1, n + 1) if i != p]
-        cand = [x for x in peers if x not in proposers or rng.random() < (0.15 if first_pass else 0.5)] or peers
+        cand = [x for x in peers if x not in proposers or rng.random() < (avoid if first_pass else 0.5)] or peers
         subset = set(rng.sample(cand, rng.randint(min(max(1, q - 1), len(cand)), len(cand))))
         deliver_all(lambda m: m["t"] == "prepare" and m["src"] == p and m["bn"] == b and m["dst"] in subset)
+        if rng.random() < 0.25:
+            # the replies of this round are slow: an old promise completes phase 1 of this ballot much later
+            deliver_all(lambda m: m["t"] in ("promise", "nack") and m["dst"] == p and m["bn"] == b,
+                        limit=rng.randint(0, max(0, q - 2)))
+            continue
         deliver_all(lambda m: m["t"] in ("promise", "nack") and m["dst"] == p and m["bn"] == b)
         stall = rng.random() < (0.6 if first_pass and r + 1 < len(order) else 0.25)
         if not stall:                   # otherwise the Accepts of this ballot stay in flight (slow links)
@@ -504,3 +513,62 @@ def rounds_direct(rng: random.Random, n=None, max_steps=220):
     while c.pool and len(c.rec.steps) < max_steps and not c.rec.error:
         c.deliver(rng.randrange(len(c.pool)))
     return c, {"n": n, "strat": "rounds", "proposers": proposers, "drained": not c.pool}
+
+
+def overtake_direct(rng: random.Random, n=None, max_steps=220):
+    """Template with random roles, subsets and noise: a lower proposer L gets promises from the acceptor set A
+    but the replies are slow; a higher proposer H with the SAME ballot number gets its phase-1 quorum elsewhere
+    (L included) and its Accepts reach A before (instead of) its Prepares; H's value is chosen.  Then L's old
+    promises arrive, L runs phase 2 of the lower ballot (stale Accepts reach A), is nacked by the others,
+    retries and collects promises from A.  Finally everything in flight is delivered in random order."""
+    n = n or rng.choice((3, 3, 4, 5))
+    q = n // 2 + 1
+    c = DirectCluster(n)
+    random.seed(rng.random())
+    lo, hi = sorted(rng.sample(range(1, n + 1), 2))
+    rest = [i for i in range(1, n + 1) if i not in (lo, hi)]
+    rng.shuffle(rest)
+    A = set(rest[:q - 1])                       # acceptors that promise L and later accept H without a promise
+    B = set(rest[q - 1:])                       # the others: they only ever hear H
+
+    def deliver_all(pred, limit=None):
+        evs = [ev for ev, em in c.pool if pred(em)]
+        rng.shuffle(evs)
+        for ev in evs[:limit]:
+            k = next((i for i, (e2, _) in enumerate(c.pool) if e2 is ev), None)
+            if k is not None and len(c.rec.steps) < max_steps and not c.rec.error:
+                c.deliver(k)
+
+    def noise():
+        if c.pool and rng.random() < 0.15:
+            c.deliver(rng.randrange(len(c.pool)))
+
+    c.propose(lo, 1)
+    bl = c.node(lo)._current_ballot.number
+    deliver_all(lambda m: m["t"] == "prepare" and m["src"] == lo and m["dst"] in A)      # promises stay in flight
+    noise()
+    c.propose(hi, 2)
+    bh = c.node(hi)._current_ballot.number
+    deliver_all(lambda m: m["t"] == "prepare" and m["src"] == hi and m["dst"] in B | {lo})
+    deliver_all(lambda m: m["t"] in ("promise", "nack") and m["dst"] == hi and m["bn"] == bh)
+    noise()
+    deliver_all(lambda m: m["t"] == "accept" and m["src"] == hi and m["dst"] in A)       # overtakes its Prepare
+    if rng.random() < 0.5:
+        deliver_all(lambda m: m["t"] == "accept" and m["src"] == hi and m["dst"] in B)
+    deliver_all(lambda m: m["t"] in ("accepted", "nack") and m["dst"] == hi and m["bn"] == bh)
+    noise()
+    deliver_all(lambda m: m["t"] == "promise" and m["dst"] == lo and m["bn"] == bl)       # the old promises arrive
+    deliver_all(lambda m: m["t"] == "accept" and m["src"] == lo and m["bn"] == bl and m["dst"] in A)   # stale Accepts
+    deliver_all(lambda m: m["t"] == "accept" and m["src"] == lo and m["bn"] == bl)
+    deliver_all(lambda m: m["t"] in ("accepted", "nack") and m["dst"] == lo)
+    noise()
+    for _ in range(2):
+        deliver_all(lambda m: m["t"] == "retry" and m["dst"] == lo, limit=1)
+        b2 = c.node(lo)._current_ballot.number
+        deliver_all(lambda m: m["t"] == "prepare" and m["src"] == lo and m["bn"] == b2 and m["dst"] in A)
+        deliver_all(lambda m: m["t"] in ("promise", "nack") and m["dst"] == lo and m["bn"] == b2)
+        deliver_all(lambda m: m["t"] == "accept" and m["src"] == lo and m["bn"] == b2 and m["dst"] in A)
+        deliver_all(lambda m: m["t"] in ("accepted", "nack") and m["dst"] == lo and m["bn"] == b2)
+    while c.pool and len(c.rec.steps) < max_steps and not c.rec.error:
+        c.deliver(rng.randrange(len(c.pool)))
+    return c, {"n": n, "strat": "overtake", "lo": lo, "hi": hi, "A": sorted(A), "drained": not c.pool}
